@@ -19,6 +19,9 @@ use std::sync::{Arc, Mutex};
 use std::task::{Context, Poll, Waker};
 use std::time::Duration;
 
+/// Datagrams a simulated socket accepts per simulated millisecond (~600 Mbit/s at 1200 bytes).
+pub const NIC_BURST: u32 = 64;
+
 #[derive(Clone, Debug)]
 pub struct LinkCfg {
     pub drop: f64,
@@ -110,12 +113,14 @@ pub struct FabricInner {
     pub counts: BTreeMap<&'static str, u64>,
     pub hash: RunHash,
     record_log: bool,
+    trace: bool,
     pub log: Vec<String>,
     seen_dcid: BTreeSet<Vec<u8>>,
     pub attempts: Vec<ConnAttempt>,
     recv_errors: BTreeMap<SocketAddr, VecDeque<io::ErrorKind>>,
     send_blocked_until: BTreeMap<SocketAddr, u64>,
     send_errors: BTreeMap<SocketAddr, u32>,
+    nic: BTreeMap<SocketAddr, (u64, u32)>,
     pub delivered: u64,
     pub sent: u64,
     pub bytes: u64,
@@ -150,12 +155,14 @@ impl Fabric {
                 counts: BTreeMap::new(),
                 hash: RunHash::default(),
                 record_log,
+                trace: std::env::var("VERIF_TRACE_FABRIC").is_ok(),
                 log: Vec::new(),
                 seen_dcid: BTreeSet::new(),
                 attempts: Vec::new(),
                 recv_errors: BTreeMap::new(),
                 send_blocked_until: BTreeMap::new(),
                 send_errors: BTreeMap::new(),
+                nic: BTreeMap::new(),
                 delivered: 0,
                 sent: 0,
                 bytes: 0,
@@ -486,6 +493,9 @@ impl FabricInner {
         self.hash.push_u64(len as u64);
         if self.record_log {
             let t = text();
+            if self.trace {
+                eprintln!("{now} {t}");
+            }
             self.log.push(format!("{now} {t}"));
         }
     }
@@ -603,6 +613,21 @@ impl AsyncUdpSocket for SimSocket {
             if f.send_blocked_until.get(&self.addr).copied().unwrap_or(0) > now {
                 *f.counts.entry("send_wouldblock").or_default() += 1;
                 return Err(io::Error::new(io::ErrorKind::WouldBlock, "sim: send buffer full"));
+            }
+            // Finite-rate NIC: at most NIC_BURST datagrams per simulated millisecond and socket.
+            // Beyond that the socket is not writable until the next millisecond, so virtual time
+            // advances even if an endpoint tries to send in a tight loop (with a paused clock a
+            // loop that never awaits a timer would otherwise freeze time forever).
+            let ms = now / 1_000_000;
+            let e = f.nic.entry(self.addr).or_insert((ms, 0));
+            if e.0 != ms {
+                *e = (ms, 0);
+            }
+            e.1 += 1;
+            if e.1 > NIC_BURST {
+                f.send_blocked_until.insert(self.addr, (ms + 1) * 1_000_000);
+                *f.counts.entry("nic_rate_limited").or_default() += 1;
+                return Err(io::Error::new(io::ErrorKind::WouldBlock, "sim: NIC queue full"));
             }
             if let Some(n) = f.send_errors.get_mut(&self.addr) {
                 if *n > 0 {
